@@ -97,6 +97,12 @@ KeyClasses == {"valid", "short", "len31", "len33", "len64", "empty", "bad_b64", 
 HeaderClasses == {"valid", "empty", "scheme_only", "scheme_space", "other_scheme", "no_eq", "empty_values", "only_quotes",
                   "commas", "dup_origin", "bad_origin", "long", "nul", "unicode", "eq_only", "short_sig", "bad_sig",
                   "unknown_key", "other_alg", "unknown_origin", "other_destination"}
+\* a request carrying 0 to 3 Authorization headers: another scheme, or X-Matrix with an origin (a, the same name in
+\* another letter case A, another server b), one of two key IDs, and the destination present / absent / another one
+HdrItems == {"other"} \cup {"xm:" \o o \o ":" \o k \o ":" \o d : o \in {"a", "A", "b"}, k \in {"k1", "k2"}, d \in {"d", "n", "x"}}
+HdrSeqs == UNION {[1..n -> HdrItems] : n \in 0..3}
+HdrName(s) == LET f[i \in 0..Len(s)] == IF i = 0 THEN "" ELSE IF i = 1 THEN s[1] ELSE f[i - 1] \o "|" \o s[i]
+              IN IF Len(s) = 0 THEN "none" ELSE f[Len(s)]
 VersionedRawOps == {"Canonicalise:Enforced", "RedactJSON"} \cup BodyOps
 
 RawSubject(v, kind, k1, c1, c2) ==
@@ -117,6 +123,8 @@ InitRaw ==
           subject = RawSubject("10", "keys", "json", c1, c2) @@ [op |-> op]
     \/ \E c \in HeaderClasses, op \in HeaderOps :
           subject = RawSubject("10", "header", "json", c, "none") @@ [op |-> op]
+    \/ \E hs \in HdrSeqs :
+          subject = RawSubject("10", "headers", "json", HdrName(hs), "none") @@ [op |-> "VerifyHTTPRequest"]
     \/ \E c \in DocClasses, op \in {Dec(t) : t \in DecodeTargets} \cup (BodyOps \ {"Body:PerformJoin"}) :
        \E v \in (IF op \in VersionedRawOps THEN Versions ELSE {"10"}) :
           subject = RawSubject(v, "body", "json", c, "none") @@ [op |-> op]
